@@ -47,7 +47,7 @@ pub enum SavedPx {
 }
 pub fn save_price(w: &World, b: usize) -> SavedPx {
     match &w.banks[b].oracle {
-        OracleD::Pyth(k) | OracleD::Staked { oracle: k, .. } => SavedPx::Pyth(w.pyth[k]),
+        OracleD::Pyth(k) | OracleD::Staked { oracle: k, .. } | OracleD::Venue { oracle: k, .. } => SavedPx::Pyth(w.pyth[k]),
         OracleD::Swb(k) => SavedPx::Swb(w.swb[k]),
         _ => SavedPx::None,
     }
@@ -55,14 +55,14 @@ pub fn save_price(w: &World, b: usize) -> SavedPx {
 pub fn restore_price(w: &mut World, b: usize, s: SavedPx) {
     let now = w.chain.now();
     match (w.banks[b].oracle.clone(), s) {
-        (OracleD::Pyth(k), SavedPx::Pyth(p)) | (OracleD::Staked { oracle: k, .. }, SavedPx::Pyth(p)) => w.set_pyth(&k, PythPx { publish_time: now, ..p }),
+        (OracleD::Pyth(k), SavedPx::Pyth(p)) | (OracleD::Staked { oracle: k, .. }, SavedPx::Pyth(p)) | (OracleD::Venue { oracle: k, .. }, SavedPx::Pyth(p)) => w.set_pyth(&k, PythPx { publish_time: now, ..p }),
         (OracleD::Swb(k), SavedPx::Swb(p)) => w.set_swb(&k, SwbPx { last_update: now, ..p }),
         _ => {}
     }
 }
 pub fn scale_price(w: &mut World, b: usize, f: f64) {
     match w.banks[b].oracle.clone() {
-        OracleD::Pyth(k) | OracleD::Staked { oracle: k, .. } => {
+        OracleD::Pyth(k) | OracleD::Staked { oracle: k, .. } | OracleD::Venue { oracle: k, .. } => {
             let mut p = w.pyth[&k];
             p.price = ((p.price as f64 * f) as i64).max(1);
             p.ema = ((p.ema as f64 * f) as i64).max(1);
